@@ -22,11 +22,18 @@ def errWrite : Err := .base (ascii "verif: write fault")
 def errRead : Err := .base (ascii "verif: read fault")
 def errUnexpectedEOF : Err := .base (ascii "unexpected EOF")
 
-structure Sess where
+/-- the input side of a connection: what has arrived and not been consumed yet.  The COPY
+    readers work on this component only, so they can neither write to the client nor log. -/
+structure Inp where
   L : Nat
   items : List Item
   tail : Tail
   msg : Bytes := []
+  /-- set when the run touched a codec combination the Lean model does not cover -/
+  unsup : Bool := false
+
+structure Sess where
+  inp : Inp
   /-- backend messages whose `Write` call succeeded, newest first.  Every write of the
       session phase is `Writer.End` of one message (Model/Writer.lean models the frame buffer) -/
   out : List BMsg := []
@@ -37,8 +44,6 @@ structure Sess where
   stmts : List (Bytes × Stmt) := []
   portals : List (Bytes × Portal) := []
   discard : Bool := false
-  /-- set when the run touched a codec combination the Lean model does not cover -/
-  unsup : Bool := false
 
 namespace Sess
 
@@ -52,6 +57,11 @@ def send (s : Sess) (m : BMsg) : Sess × Bool :=
 
 def log (s : Sess) (e : Event) : Sess := { s with ev := e :: s.ev }
 
+/-- advance within the current message (`reader.Msg = reader.Msg[n:]`) -/
+def setMsg (s : Sess) (m : Bytes) : Sess := { s with inp := { s.inp with msg := m } }
+
+def markUnsup (s : Sess) : Sess := { s with inp := { s.inp with unsup := true } }
+
 end Sess
 
 inductive Rd where
@@ -62,7 +72,7 @@ inductive Rd where
 /-- `ReadTypedMsg`.  For an oversized message the header has been read; whether the declared
     body could be skipped in full (`Slurp`) is the item's `full` flag, consulted by the
     callers that skip (the command loop and `CopyReader.Read`; authentication never skips). -/
-def Sess.next (s : Sess) : Rd × Sess :=
+def Inp.next (s : Inp) : Rd × Inp :=
   match s.items with
   | .msg t b :: r => (.item (.msg t b), { s with items := r, msg := b })
   | .big t size full :: r => (.item (.big t size full), { s with items := r, msg := [] })
@@ -125,7 +135,7 @@ def dwRow (d : DW) (s : Sess) (vals : List Val) : RowOut × DW × Sess :=
   if d.closed then (.res (some (.lib errClosedWriter)), d, s)
   else if vals.length ≠ d.cols.length then (.res (some (.lib (errArity d.cols.length vals.length))), d, s)
   else match encodeRow d.formats 0 d.cols vals with
-    | .unsupported => (.res (some .pgxEnc), d, { s with unsup := true })
+    | .unsupported => (.res (some .pgxEnc), d, s.markUnsup)
     | .err => (.res (some .pgxEnc), d, s)
     | .panic f => (.panic (panicText f), d, s)
     | .ok fields =>
@@ -153,13 +163,13 @@ def dwCopyIn (d : DW) (s : Sess) (fmt : Nat) : Option OpErr × DW × Sess :=
   if d.closed then (some (.lib errClosedWriter), d, s)
   else if d.cols.length = 0 then (some (.lib errNoColumns), d, s)
   else match s.send (.copyIn (fmt % 256) d.cols.length) with   -- see `copyInBody`
-    | (s', true) => (none, { d with copy := true }, { s' with msg := [] })
+    | (s', true) => (none, { d with copy := true }, s'.setMsg [])
     | (s', false) => (some (.lib errWrite), d, s')
 
 /-! ### COPY-in (copy.go) -/
 
 /-- `CopyReader.Read`; `none` = blocked waiting for input -/
-def copyRead : Nat → Sess → Option CopyRes × Sess
+def copyRead : Nat → Inp → Option CopyRes × Inp
   | 0, s => (none, s)
   | fuel + 1, s =>
     match s.next with
@@ -186,7 +196,7 @@ inductive FillRes where
   | ok | eof | err (e : OpErr) | blocked
 
 /-- `BinaryCopyReader.fill` -/
-def binFill (size : Nat) : Nat → Bin → Sess → FillRes × Bin × Sess
+def binFill (size : Nat) : Nat → Bin → Inp → FillRes × Bin × Inp
   | 0, b, s => (.blocked, b, s)
   | fuel + 1, b, s =>
     if b.pending.length ≥ size then (.ok, b, s)
@@ -197,13 +207,13 @@ def binFill (size : Nat) : Nat → Bin → Sess → FillRes × Bin × Sess
       | (some (.err e), s') => (.err e, b, s')
       | (some (.data p), s') => binFill size fuel { b with pending := b.pending ++ p } { s' with msg := [] }
 
-def binFuel (s : Sess) : Nat := s.items.length + 2
+def binFuel (s : Inp) : Nat := s.items.length + 2
 
 inductive TakeRes where
   | ok (v : Bytes) | err (e : OpErr) | blocked
 
 /-- `BinaryCopyReader.take` -/
-def binTake (size : Nat) (b : Bin) (s : Sess) : TakeRes × Bin × Sess :=
+def binTake (size : Nat) (b : Bin) (s : Inp) : TakeRes × Bin × Inp :=
   match binFill size (binFuel s) b s with
   | (.ok, b, s) => (.ok (b.pending.take size), { b with pending := b.pending.drop size }, s)
   | (.eof, b, s) => (.err (.lib errUnexpectedEOF), b, s)
@@ -217,7 +227,7 @@ inductive LenRes where
   | ok (n : Nat) | err (e : OpErr) | blocked
 
 /-- `BinaryCopyReader.takeLength` -/
-def binTakeLength (b : Bin) (s : Sess) : LenRes × Bin × Sess :=
+def binTakeLength (b : Bin) (s : Inp) : LenRes × Bin × Inp :=
   match binTake 4 b s with
   | (.ok v, b, s) =>
     (match rd32 v with
@@ -235,7 +245,7 @@ inductive StepRes where
   | ok | err (e : OpErr) | blocked
 
 /-- `BinaryCopyReader.skipHeader` -/
-def binSkipHeader (b : Bin) (s : Sess) : StepRes × Bin × Sess :=
+def binSkipHeader (b : Bin) (s : Inp) : StepRes × Bin × Inp :=
   match binFill copySignature.length (binFuel s) b s with
   | (.blocked, b, s) => (.blocked, b, s)
   | (.err e, b, s) => (.err e, b, s)
@@ -260,7 +270,7 @@ inductive FieldsRes where
   | ok (vals : List Val) | err (e : OpErr) | blocked | unsupported
 
 /-- the field loop of `BinaryCopyReader.Read` -/
-def binFields : List Nat → Bin → Sess → FieldsRes × Bin × Sess
+def binFields : List Nat → Bin → Inp → FieldsRes × Bin × Inp
   | [], b, s => (.ok [], b, s)
   | oid :: oids, b, s =>
     match binTakeLength b s with
@@ -288,8 +298,8 @@ def errFieldCount (ncols nfields : Nat) : Err :=
     ascii " columns are defined but " ++ decNat nfields ++ ascii " fields were given")
 
 /-- `BinaryCopyReader.Read`; `none` = blocked -/
-def binRead (b : Bin) (s : Sess) : Option BinRes × Bin × Sess :=
-  let hdr : StepRes × Bin × Sess :=
+def binRead (b : Bin) (s : Inp) : Option BinRes × Bin × Inp :=
+  let hdr : StepRes × Bin × Inp :=
     if b.started then (.ok, b, s) else binSkipHeader { b with started := true } s
   match hdr with
   | (.blocked, b, s) => (none, b, s)
@@ -351,21 +361,21 @@ def runProg : Prog → DW → Sess → Outcome × Sess
     runProg (k r) d (s.log (.copyInRes r))
   | .copyRead k, d, s =>
     if !d.copy then runProg (k (.err errNoReader)) d (s.log (.copyRes (.err errNoReader)))
-    else match copyRead (s.items.length + 1) s with
-      | (none, s) => (.blocked, s)
-      | (some r, s) => runProg (k r) d (s.log (.copyRes r))
+    else match copyRead (s.inp.items.length + 1) s.inp with
+      | (none, i) => (.blocked, { s with inp := i })
+      | (some r, i) => runProg (k r) d ({ s with inp := i }.log (.copyRes r))
   | .binNew k, d, s =>
     if !d.copy then runProg (k (some errNoReader)) d (s.log (.binNewRes (some errNoReader)))
     else
-      let s := if d.cols.all (fun c => supportedOid c.oid) then s else { s with unsup := true }
+      let s := if d.cols.all (fun c => supportedOid c.oid) then s else s.markUnsup
       runProg (k none) { d with bin := some { oids := d.cols.map (·.oid) } } (s.log (.binNewRes none))
   | .binRead k, d, s =>
     match d.bin with
     | none => runProg (k (.err errNoReader)) d (s.log (.binRes (.err errNoReader)))
     | some b =>
-      match binRead b s with
-      | (none, _, s) => (.blocked, s)
-      | (some r, b, s) => runProg (k r) { d with bin := some b } (s.log (.binRes r))
+      match binRead b s.inp with
+      | (none, _, i) => (.blocked, { s with inp := i })
+      | (some r, b, i) => runProg (k r) { d with bin := some b } ({ s with inp := i }.log (.binRes r))
 
 /-! ### the command loop (command.go) -/
 
@@ -448,10 +458,10 @@ def runStatements : List Stmt → Sess → Step
       | (.done none, s) => runStatements rest s
 
 def handleSimpleQuery (h : Handlers) (s : Sess) : Step :=
-  match getString s.msg with
+  match getString s.inp.msg with
   | none => .stop s .closed
   | some (q, rest) =>
-    let s := { s with msg := rest }
+    let s := (s.setMsg rest)
     if isBlank q then
       match s.send .emptyQuery with
       | (s, false) => .stop s .closed
@@ -464,16 +474,16 @@ def handleSimpleQuery (h : Handlers) (s : Sess) : Step :=
       | .ok sts => runStatements (labelStmts q sts) s
 
 def handleParse (h : Handlers) (s : Sess) : Step :=
-  match getString s.msg with
+  match getString s.inp.msg with
   | none => .stop s .closed
   | some (name, r1) =>
     match getString r1 with
-    | none => .stop { s with msg := r1 } .closed
+    | none => .stop (s.setMsg r1) .closed
     | some (q, r2) =>
       match getU16 r2 with
-      | none => .stop { s with msg := r2 } .closed
+      | none => .stop (s.setMsg r2) .closed
       | some (_, r3) =>
-        let s := { s with msg := r3 }
+        let s := (s.setMsg r3)
         let s := s.log (.parse q)
         match h.parse q with
         | .error e => extendedError s (some e)
@@ -501,13 +511,13 @@ def describeCols (s : Sess) (formats : List Nat) (cols : List ColDesc) : Sess ×
   if cols.length = 0 then s.send .noData else s.send (.rowDesc (colFormats formats cols))
 
 def handleDescribe (s : Sess) : Step :=
-  match getBytes 1 s.msg with
+  match getBytes 1 s.inp.msg with
   | none => .stop s .closed
   | some (d, r1) =>
     match getString r1 with
-    | none => .stop { s with msg := r1 } .closed
+    | none => .stop (s.setMsg r1) .closed
     | some (name, r2) =>
-      let s := { s with msg := r2 }
+      let s := (s.setMsg r2)
       let kind := d.headD 0
       if kind = ch 'S' then
         match lookup name s.stmts with
@@ -572,29 +582,29 @@ def decodeBindTail (m : Bytes) : Option (List Param × List Nat × Bytes) :=
             | some (rfmts, r) => some (params, rfmts, r)
 
 def handleBind (s : Sess) : Step :=
-  match getString s.msg with
+  match getString s.inp.msg with
   | none => .stop s .closed
   | some (pname, r1) =>
     match getString r1 with
-    | none => .stop { s with msg := r1 } .closed
+    | none => .stop (s.setMsg r1) .closed
     | some (sname, r2) =>
       match decodeBindTail r2 with
-      | none => .stop { s with msg := r2 } .closed
+      | none => .stop (s.setMsg r2) .closed
       | some (params, rfmts, r3) =>
-        let s := { s with msg := r3 }
+        let s := (s.setMsg r3)
         match lookup sname s.stmts with
         | none => extendedError s (some (errUnknownStatement sname))
         | some st =>
           afterWrite ({ s with portals := store pname { stmt := st, params, formats := rfmts } s.portals }.send .bindComplete)
 
 def handleExecute (s : Sess) : Step :=
-  match getString s.msg with
+  match getString s.inp.msg with
   | none => .stop s .closed
   | some (name, r1) =>
     match getU32 r1 with
-    | none => .stop { s with msg := r1 } .closed
+    | none => .stop (s.setMsg r1) .closed
     | some (_, r2) =>
-      let s := { s with msg := r2 }
+      let s := (s.setMsg r2)
       match lookup name s.portals with
       | none => extendedError s (some (errUnknownPortal name))
       | some p =>
@@ -607,13 +617,13 @@ def handleExecute (s : Sess) : Step :=
         | (.done none, s) => .cont s
 
 def handleClose (s : Sess) : Step :=
-  match getBytes 1 s.msg with
+  match getBytes 1 s.inp.msg with
   | none => .stop s .closed
   | some (d, r1) =>
     match getString r1 with
-    | none => .stop { s with msg := r1 } .closed
+    | none => .stop (s.setMsg r1) .closed
     | some (name, r2) =>
-      let s := { s with msg := r2 }
+      let s := (s.setMsg r2)
       let kind := d.headD 0
       if kind = ch 'S' then afterWrite ({ s with stmts := remove name s.stmts }.send .closeComplete)
       else if kind = ch 'P' then afterWrite ({ s with portals := remove name s.portals }.send .closeComplete)
@@ -639,18 +649,19 @@ def handleCommand (h : Handlers) (t : UInt8) (s : Sess) : Step :=
 
 /-- `handleMessageSizeExceeded` after the skip -/
 def handleOversize (t : UInt8) (size : Int) (s : Sess) : Step :=
-  let e := errSizeExceeded s.L size
+  let e := errSizeExceeded s.inp.L size
   if t = ch 'Q' ∧ !s.discard then errorCode s (some e) else afterWrite (sendError s (some e))
 
 /-- `consumeSingleCommand` -/
 def stepCommand (h : Handlers) (s : Sess) : Step :=
-  match s.next with
-  | (.blocked, s) => .stop s .waiting
-  | (.rerr, s) => .stop s .closed
-  | (.item (.big t size full), s) =>
+  match s.inp.next with
+  | (.blocked, i) => .stop { s with inp := i } .waiting
+  | (.rerr, i) => .stop { s with inp := i } .closed
+  | (.item (.big t size full), i) =>
+    let s := { s with inp := i }
     if full then handleOversize t size s
-    else .stop s (match s.tail with | .wait => .waiting | .rerr => .closed)   -- Slurp did not complete
-  | (.item (.msg t _), s) => handleCommand h t s
+    else .stop s (match i.tail with | .wait => .waiting | .rerr => .closed)   -- Slurp did not complete
+  | (.item (.msg t _), i) => handleCommand h t { s with inp := i }
 
 /-- `consumeCommands` after the initial ReadyForQuery.  Every iteration consumes at least one
     item or stops, so `items.length + 1` iterations always suffice (`loop_fuel`, Props). -/
@@ -664,6 +675,6 @@ def loop (h : Handlers) : Nat → Sess → Sess × End
 def runSession (h : Handlers) (s : Sess) : Sess × End :=
   match s.send (.ready (ch 'I')) with
   | (s, false) => (s, .closed)
-  | (s, true) => loop h (s.items.length + 1) s
+  | (s, true) => loop h (s.inp.items.length + 1) s
 
 end Pw
